@@ -179,7 +179,11 @@ class StmtMixin(ContractMixin):
 
     def st_Raise(self, s, st):
         if s.exc is None:
-            raise Unsupported("bare raise")
+            cur = st.ghost.get("__handling__")
+            if cur is None:
+                raise Unsupported("bare raise outside an except block")
+            self.do_raise(st, cur)
+            return
         v = self.ev(s.exc, st)
         if isinstance(v, VClass):
             v = VExc(v.name, ())
@@ -501,7 +505,12 @@ class StmtMixin(ContractMixin):
                         o.value = None
                         if h.name:
                             o.frame.env[h.name] = exc
-                        res.extend(self.exec_block(h.body, [o]))
+                        saved = o.ghost.get("__handling__")
+                        o.ghost["__handling__"] = exc
+                        outs2 = self.exec_block(h.body, [o])
+                        for o2 in outs2:
+                            o2.ghost["__handling__"] = saved
+                        res.extend(outs2)
                         handled = True
                         break
                 if not handled:
